@@ -641,9 +641,14 @@ def autoforwards_ast(func, func_ast, sig, args=(), kwargs={}):
 def autoforwards_method(method, args, kwargs):
     if method.__self__ is None:
         raise UnknownForwards
-    return _signatures.mask(
-        autoforwards(method.__func__, (method.__self__,) + tuple(args), kwargs),
-        1)
+    sig = autoforwards(
+        method.__func__, (method.__self__,) + tuple(args), kwargs)
+    try:
+        return _signatures.mask(sig, 1)
+    except ValueError:
+        # def method(*args, **kwargs) forwarding to something that takes no
+        # positional argument: the instance has nowhere to go
+        raise UnknownForwards
 
 
 def autoforwards(obj, args=(), kwargs={}):
